@@ -438,3 +438,245 @@ Proof.
   intros Hw Ht Hx Htx Hres. unfold object_insert_w. rewrite (as_jsonb_enc v Hw Ht), (as_jsonb_enc x Hx Htx). cbn [bind].
   apply object_insert_b_enc; [exact Hw|apply wfb_size; exact Hx|exact Hres].
 Qed.
+
+(* ================================================================ strip_nulls *)
+Definition nonnull (kv : list N * value) : bool := match snd kv with VNull => false | _ => true end.
+(* the builder entry the walker makes for a value *)
+Fixpoint sn_entry (x : value) : entry :=
+  match x with
+  | VArr l => EArr (map sn_entry l)
+  | VObj o => EObj ((fix go (o : list (list N * value)) : list (list N * entry) :=
+                       match o with
+                       | [] => []
+                       | (k, y) :: r => match y with VNull => go r | _ => (k, sn_entry y) :: go r end
+                       end) o)
+  | _ => raw_of x
+  end.
+Definition sn_member (kv : list N * value) : list N * entry := (fst kv, sn_entry (snd kv)).
+Lemma sn_entry_obj o : sn_entry (VObj o) = EObj (map sn_member (filter nonnull o)).
+Proof.
+  cbn [sn_entry]. f_equal. induction o as [|[k y] o IH]; [reflexivity|].
+  cbn [filter]. unfold nonnull at 1. cbn [snd]. destruct y; cbn [map]; rewrite IH; reflexivity.
+Qed.
+Lemma sn_entry_arr l : sn_entry (VArr l) = EArr (map sn_entry l).
+Proof. reflexivity. Qed.
+
+Lemma tag_container x : (fst (ent x) =? CONTAINER_TAG) = is_container x.
+Proof. unfold ent. cbn [fst]. destruct (tag_tests x) as (_ & _ & _ & _ & _ & H). rewrite H. destruct x; reflexivity. Qed.
+Lemma tag_null x : (fst (ent x) =? NULL_TAG) = match x with VNull => true | _ => false end.
+Proof. unfold ent. cbn [fst]. apply (tag_tests x). Qed.
+
+Lemma strip_null_iff x : match strip_nulls_t x with VNull => false | _ => true end = match x with VNull => false | _ => true end.
+Proof. destruct x; reflexivity. Qed.
+Lemma strip_obj_eq o : strip_nulls_t (VObj o) = VObj (map (fun kv => (fst kv, strip_nulls_t (snd kv))) (filter nonnull o)).
+Proof.
+  cbn [strip_nulls_t]. f_equal. induction o as [|[k x] o IH]; cbn [map filter fst snd]; [reflexivity|].
+  unfold nonnull at 1. cbn [snd]. rewrite strip_null_iff. destruct x; cbn [map fst snd]; rewrite IH; reflexivity.
+Qed.
+
+Lemma sum_len_in c l : In c l -> lenN (payload c) <= sum_len l.
+Proof.
+  induction l as [|y l IH]; [intros []|]. cbn [sum_len fold_right]. fold (sum_len l). intros [->|H]; [lia|]. specialize (IH H). lia.
+Qed.
+Lemma len_lt_of_lenN {A B} (a : list A) (b : list B) : lenN a < lenN b -> (length a < length b)%nat.
+Proof. unfold lenN. lia. Qed.
+Lemma child_shorter_arr c l : In c l -> (length (payload c) < length (payload (VArr l)))%nat.
+Proof. intros H. apply len_lt_of_lenN. rewrite plen_arr. pose proof (sum_len_in c l H). lia. Qed.
+Lemma child_shorter_obj c o : In c (vals o) -> (length (payload c) < length (payload (VObj o)))%nat.
+Proof. intros H. apply len_lt_of_lenN. rewrite plen_obj. pose proof (sum_len_in c (vals o) H). lia. Qed.
+
+(* the loops, given what the nested call answers on the container children *)
+Lemma strip_arr_fold (rec : list N -> res entry) (l : list value) :
+  Forall (fun c => is_container c = true -> rec (payload c) = Ok (sn_entry c)) l -> forall acc,
+  fold_exit (fun es x => if fst (ent x) =? CONTAINER_TAG then do e <- rec (payload x); Ok (inl (es ++ [e]))
+                         else Ok (inl (es ++ [ERaw (ent x) (payload x)]))) (fun es => Ok es) l acc
+  = Ok (acc ++ map sn_entry l).
+Proof.
+  induction 1 as [|x l Hx _ IH]; intros acc; cbn [fold_exit map]; [rewrite app_nil_r; reflexivity|].
+  rewrite tag_container. destruct (is_container x) eqn:C.
+  - rewrite (Hx eq_refl). cbn [bind]. rewrite IH, <- app_assoc. reflexivity.
+  - cbn [bind]. rewrite IH, <- app_assoc. destruct x; try discriminate C; reflexivity.
+Qed.
+
+Lemma strip_obj_fold (rec : list N -> res entry) (o : list (list N * value)) : strongly_sorted o ->
+  Forall (fun kv => is_container (snd kv) = true -> rec (payload (snd kv)) = Ok (sn_entry (snd kv))) o ->
+  forall todo done, o = done ++ todo ->
+  fold_exit (fun b kv => if fst (ent (snd kv)) =? CONTAINER_TAG then do e <- rec (payload (snd kv)); Ok (inl (obj_push b (fst kv) e))
+                         else if fst (ent (snd kv)) =? NULL_TAG then Ok (inl b)
+                         else Ok (inl (obj_push b (fst kv) (ERaw (ent (snd kv)) (payload (snd kv))))))
+            (fun b => Ok b) todo (map sn_member (filter nonnull done))
+  = Ok (map sn_member (filter nonnull o)).
+Proof.
+  intros So Hrec. induction todo as [|[k x] todo IH]; intros done Eo; cbn [fold_exit].
+  - rewrite app_nil_r in Eo. subst. reflexivity.
+  - cbn [fst snd].
+    assert (Eo' : o = (done ++ [(k, x)]) ++ todo) by (rewrite <- app_assoc; exact Eo).
+    specialize (IH _ Eo'). rewrite filter_app, map_app in IH. cbn [filter] in IH.
+    assert (Hx : is_container x = true -> rec (payload x) = Ok (sn_entry x)).
+    { rewrite Forall_forall in Hrec. apply (Hrec (k, x)). rewrite Eo. apply in_or_app. right. left. reflexivity. }
+    assert (KB : keys_below k (map sn_member (filter nonnull done))).
+    { apply (keys_below_sub k done (fun kv => sn_entry (snd kv))). rewrite Eo in So. apply (ss_app_mid _ _ _ _ So). }
+    rewrite tag_container, tag_null. destruct (is_container x) eqn:C.
+    + rewrite (Hx eq_refl). cbn [bind]. rewrite (push_last _ _ _ KB).
+      assert (NN : nonnull (k, x) = true) by (destruct x; try discriminate C; reflexivity).
+      rewrite NN in IH. exact IH.
+    + destruct x as [| | | |l|o']; try discriminate C; cbn [bind]; try (rewrite (push_last _ _ _ KB); exact IH).
+      cbn [nonnull snd map] in IH. rewrite app_nil_r in IH. exact IH.
+Qed.
+
+(* the nested call on a container child: the fuel (buffer length) is enough *)
+Lemma strip_item_spec x : wfb x = true -> is_container x = true -> forall fuel, (length (payload x) < fuel)%nat ->
+  strip_item fuel (payload x) = Ok (sn_entry x).
+Proof.
+  induction x as [| | | |l IH|o IH] using value_ind2; intros Hw Hc fuel Hf; try discriminate Hc.
+  - destruct fuel as [|f]; [lia|]. cbn [strip_item].
+    destruct (wf_arr l Hw) as [Hall Hn]. destruct (arr_hdr_facts l Hn) as (_ & HT & _).
+    rewrite <- (app_nil_r (payload (VArr l))). rewrite (read_hdr_arr0 l [] Hn), HT, arr_type_not_obj, N.eqb_refl.
+    unfold strip_arr. rewrite (iterate_array_arr _ _ l [] _).
+    2:{ eapply Forall_impl; [|exact Hall]. intros c Hcw. apply wfb_size. exact Hcw. }
+    2:{ exact Hn. }
+    rewrite strip_arr_fold; [reflexivity|].
+    rewrite Forall_forall in *. intros c Hin Cc. apply (IH c Hin (Hall c Hin) Cc).
+    pose proof (child_shorter_arr c l Hin). lia.
+  - destruct fuel as [|f]; [lia|]. cbn [strip_item].
+    destruct (obj_ok_of_wf o Hw) as [Ho Hn]. destruct (obj_hdr_facts o Hn) as (_ & HT & _).
+    rewrite <- (app_nil_r (payload (VObj o))). rewrite (read_hdr_obj0 o [] Hn), HT, N.eqb_refl.
+    unfold strip_obj. rewrite (iterate_object_entries_obj _ _ o [] _ Ho Hn).
+    pose proof (strip_obj_fold (strip_item f) o (obj_sorted o Hw)) as F.
+    assert (Hrec : Forall (fun kv => is_container (snd kv) = true -> strip_item f (payload (snd kv)) = Ok (sn_entry (snd kv))) o).
+    { rewrite Forall_forall in *. intros kv Hin Cc.
+      assert (Hv : In (snd kv) (vals o)) by (unfold vals; apply in_map; exact Hin).
+      apply (IH kv Hin); [apply (wfb_obj_elem o (snd kv) Hw Hv)|exact Cc|].
+      pose proof (child_shorter_obj (snd kv) o Hv). lia. }
+    specialize (F Hrec o [] eq_refl). change (map sn_member (filter nonnull [])) with (@nil (list N * entry)) in F.
+    rewrite F. rewrite sn_entry_obj. reflexivity.
+Qed.
+
+(* the layout of a builder depends only on the layouts of its entries (and the keys) *)
+Lemma entry_item_arr_ext es es' : map entry_item es = map entry_item es' -> entry_item (EArr es) = entry_item (EArr es').
+Proof.
+  intros H. cbn [entry_item]. rewrite H.
+  replace (lenN es) with (lenN es') by (unfold lenN; rewrite <- (map_length entry_item es), H, map_length; reflexivity).
+  reflexivity.
+Qed.
+Lemma entry_item_obj_ext kes kes' : map fst kes = map fst kes' ->
+  map (fun ke => entry_item (snd ke)) kes = map (fun ke => entry_item (snd ke)) kes' -> entry_item (EObj kes) = entry_item (EObj kes').
+Proof.
+  intros Hk Hv. cbn [entry_item]. rewrite Hv.
+  replace (lenN kes) with (lenN kes') by (unfold lenN; rewrite <- (map_length fst kes), Hk, map_length; reflexivity).
+  assert (K1 : forall (l : list (list N * entry)), flat_map (fun ke => be32 (jentry_word STRING_TAG (lenN (fst ke)))) l
+               = flat_map (fun k => be32 (jentry_word STRING_TAG (lenN k))) (map fst l)) by (intros l; rewrite flat_map_map; reflexivity).
+  assert (K2 : forall (l : list (list N * entry)), flat_map (fun ke => fst ke) l = flat_map (fun k => k) (map fst l)) by (intros l; rewrite flat_map_map; reflexivity).
+  rewrite (K1 kes), (K1 kes'), (K2 kes), (K2 kes'), Hk. reflexivity.
+Qed.
+Lemma entry_item_arr_raw l : entry_item (EArr (map raw_of l)) = (ent (VArr l), payload (VArr l)).
+Proof.
+  rewrite (surjective_pairing (entry_item (EArr (map raw_of l)))). fold (eje (EArr (map raw_of l))). fold (epl (EArr (map raw_of l))).
+  rewrite eje_arr, epl_arr_raw. reflexivity.
+Qed.
+Lemma entry_item_obj_raw o : entry_item (EObj (raw_members o)) = (ent (VObj o), payload (VObj o)).
+Proof.
+  rewrite (surjective_pairing (entry_item (EObj (raw_members o)))). fold (eje (EObj (raw_members o))). fold (epl (EObj (raw_members o))).
+  rewrite eje_obj, epl_obj_raw. reflexivity.
+Qed.
+
+Lemma sn_entry_item x : wf_size (strip_nulls_t x) = true ->
+  entry_item (sn_entry x) = (ent (strip_nulls_t x), payload (strip_nulls_t x)) /\ entry_okb (sn_entry x) = true.
+Proof.
+  induction x as [| | | |l IH|o IH] using value_ind2; intros Hs;
+    try (split; [apply raw_item|apply raw_ok; exact Hs]).
+  - cbn [strip_nulls_t] in *. rewrite sn_entry_arr.
+    pose proof (proj1 (wf_size_arr_iff _) Hs) as (_ & Hp & Hall). rewrite Forall_map in Hall.
+    assert (E : map entry_item (map sn_entry l) = map entry_item (map raw_of (map strip_nulls_t l))).
+    { rewrite !map_map. apply map_ext_in. intros c Hin. rewrite Forall_forall in IH, Hall.
+      rewrite (proj1 (IH c Hin (Hall c Hin))). reflexivity. }
+    pose proof (entry_item_arr_ext _ _ E) as EI. rewrite entry_item_arr_raw in EI. split; [exact EI|].
+    cbn [entry_okb]. apply andb_true_iff. split.
+    + rewrite EI. cbn [snd]. apply N.ltb_lt. lia.
+    + apply forallb_forall. intros e He. apply in_map_iff in He. destruct He as (c & <- & Hin).
+      rewrite Forall_forall in IH, Hall. apply (IH c Hin (Hall c Hin)).
+  - rewrite strip_obj_eq in *. rewrite sn_entry_obj.
+    pose proof (proj1 (wf_size_obj_iff _) Hs) as (_ & Hp & Hall). rewrite Forall_map in Hall.
+    assert (Hin' : forall kv, In kv (filter nonnull o) -> In kv o) by (intros kv H; apply filter_In in H; apply H).
+    assert (EK : map fst (map sn_member (filter nonnull o))
+                 = map fst (raw_members (map (fun kv => (fst kv, strip_nulls_t (snd kv))) (filter nonnull o)))).
+    { unfold raw_members. rewrite !map_map. reflexivity. }
+    assert (EV : map (fun ke => entry_item (snd ke)) (map sn_member (filter nonnull o))
+                 = map (fun ke => entry_item (snd ke)) (raw_members (map (fun kv => (fst kv, strip_nulls_t (snd kv))) (filter nonnull o)))).
+    { unfold raw_members. rewrite !map_map. apply map_ext_in. intros kv Hin. cbn [sn_member snd fst].
+      rewrite Forall_forall in IH, Hall. destruct (Hall kv Hin) as [_ Hsz]. cbn [snd] in Hsz.
+      rewrite (proj1 (IH kv (Hin' kv Hin) Hsz)). reflexivity. }
+    pose proof (entry_item_obj_ext _ _ EK EV) as EI. rewrite entry_item_obj_raw in EI. split; [exact EI|].
+    cbn [entry_okb]. apply andb_true_iff. split.
+    + rewrite EI. cbn [snd]. apply N.ltb_lt. lia.
+    + apply forallb_forall. intros e He. apply in_map_iff in He. destruct He as (kv & <- & Hin). cbn [sn_member snd].
+      rewrite Forall_forall in IH, Hall. destruct (Hall kv Hin) as [_ Hsz]. cbn [snd] in Hsz.
+      apply (IH kv (Hin' kv Hin) Hsz).
+Qed.
+
+(* stripping never grows a document *)
+Lemma sum_len_map_le (f : value -> value) l : Forall (fun c => lenN (payload (f c)) <= lenN (payload c)) l ->
+  sum_len (map f l) <= sum_len l.
+Proof.
+  induction 1 as [|c l Hc _ IH]; cbn [map sum_len fold_right]; [lia|]. fold (sum_len (map f l)). fold (sum_len l). lia.
+Qed.
+Lemma strip_size x : wf_size x = true ->
+  wf_size (strip_nulls_t x) = true /\ lenN (payload (strip_nulls_t x)) <= lenN (payload x).
+Proof.
+  induction x as [| | | |l IH|o IH] using value_ind2; intros Hs; try (split; [exact Hs|cbn [strip_nulls_t]; lia]).
+  - cbn [strip_nulls_t]. apply wf_size_arr_iff in Hs. destruct Hs as (Hn & Hp & Hall).
+    assert (IH' : Forall (fun c => wf_size (strip_nulls_t c) = true /\ lenN (payload (strip_nulls_t c)) <= lenN (payload c)) l).
+    { rewrite Forall_forall in *. intros c Hin. apply (IH c Hin (Hall c Hin)). }
+    assert (SL : sum_len (map strip_nulls_t l) <= sum_len l).
+    { apply sum_len_map_le. eapply Forall_impl; [|exact IH']. intros c H. apply H. }
+    rewrite wf_size_arr_iff, !plen_arr, lenN_map in *. repeat split; try lia.
+    rewrite Forall_map. eapply Forall_impl; [|exact IH']. intros c H. apply H.
+  - rewrite strip_obj_eq. apply wf_size_obj_iff in Hs. destruct Hs as (Hn & Hp & Hall).
+    set (g := fun kv : list N * value => (fst kv, strip_nulls_t (snd kv))).
+    assert (IH' : Forall (fun kv => wf_size (strip_nulls_t (snd kv)) = true /\ lenN (payload (strip_nulls_t (snd kv))) <= lenN (payload (snd kv))) o).
+    { rewrite Forall_forall in *. intros kv Hin. apply (IH kv Hin). apply (Hall kv Hin). }
+    assert (L1 : lenN (map g (filter nonnull o)) <= lenN o) by (rewrite lenN_map; apply lenN_filter_le).
+    assert (L2 : sum_keys (map g (filter nonnull o)) <= sum_keys o).
+    { pose proof (sum_keys_filter_le nonnull o) as K.
+      assert (E : forall l, sum_keys (map g l) = sum_keys l).
+      { induction l as [|kv l IHl]; cbn [map sum_keys fold_right]; [reflexivity|]. fold (sum_keys (map g l)). fold (sum_keys l). rewrite IHl. reflexivity. }
+      rewrite E. exact K. }
+    assert (L3 : sum_len (vals (map g (filter nonnull o))) <= sum_len (vals o)).
+    { pose proof (sum_vals_filter_le nonnull o) as K.
+      assert (E : vals (map g (filter nonnull o)) = map strip_nulls_t (vals (filter nonnull o))) by (unfold vals; rewrite !map_map; reflexivity).
+      rewrite E. etransitivity; [|exact K]. apply sum_len_map_le. unfold vals. rewrite Forall_map.
+      rewrite Forall_forall in *. intros kv Hin. apply filter_In in Hin. apply (IH' kv (proj1 Hin)). }
+    rewrite wf_size_obj_iff, !plen_obj in *. repeat split; try lia.
+    rewrite Forall_map. rewrite Forall_forall in *. intros kv Hin. apply filter_In in Hin. destruct Hin as [Hin _].
+    split; cbn [g fst snd]; [apply (Hall kv Hin)|apply (IH' kv Hin)].
+Qed.
+
+Theorem strip_nulls_b_enc v buf : wfb v = true -> strip_nulls_b (enc v) buf = Ok (buf ++ enc (strip_nulls_t v)).
+Proof.
+  intros Hw. pose proof (proj1 (strip_size v (wfb_size v Hw))) as Hs. pose proof (sn_entry_item v Hs) as [EI OK].
+  unfold strip_nulls_b. destruct v as [|b|s|n|l|o];
+    try (rewrite read_hdr_scalar by reflexivity; destruct scalar_hdr_type as [T1 T2]; rewrite T1, T2; reflexivity).
+  - destruct (wf_arr l Hw) as [Hall Hn]. destruct (arr_hdr_facts l Hn) as (_ & HT & _).
+    rewrite enc_arr. rewrite <- (app_nil_r (payload (VArr l))). rewrite (read_hdr_arr0 l [] Hn), HT, arr_type_not_obj, N.eqb_refl.
+    unfold strip_arr. rewrite (iterate_array_arr _ _ l [] _).
+    2:{ eapply Forall_impl; [|exact Hall]. intros c Hcw. apply wfb_size. exact Hcw. }
+    2:{ exact Hn. }
+    rewrite strip_arr_fold.
+    2:{ rewrite Forall_forall in *. intros c Hin Cc. apply (strip_item_spec c (Hall c Hin) Cc).
+        rewrite app_nil_r. apply (child_shorter_arr c l Hin). }
+    cbn [bind app]. rewrite sn_entry_arr in *. rewrite (build_arr_into_spec _ _ OK). unfold epl. rewrite EI. reflexivity.
+  - destruct (obj_ok_of_wf o Hw) as [Ho Hn]. destruct (obj_hdr_facts o Hn) as (_ & HT & _).
+    rewrite enc_obj. rewrite <- (app_nil_r (payload (VObj o))). rewrite (read_hdr_obj0 o [] Hn), HT, N.eqb_refl.
+    unfold strip_obj. rewrite (iterate_object_entries_obj _ _ o [] _ Ho Hn).
+    pose proof (strip_obj_fold (strip_item (length (payload (VObj o) ++ []))) o (obj_sorted o Hw)) as F.
+    assert (Hrec : Forall (fun kv => is_container (snd kv) = true ->
+                     strip_item (length (payload (VObj o) ++ [])) (payload (snd kv)) = Ok (sn_entry (snd kv))) o).
+    { rewrite Forall_forall. intros kv Hin Cc.
+      assert (Hv : In (snd kv) (vals o)) by (unfold vals; apply in_map; exact Hin).
+      apply (strip_item_spec (snd kv) (wfb_obj_elem o (snd kv) Hw Hv) Cc). rewrite app_nil_r. apply (child_shorter_obj _ o Hv). }
+    specialize (F Hrec o [] eq_refl). change (map sn_member (filter nonnull [])) with (@nil (list N * entry)) in F.
+    rewrite F. cbn [bind]. rewrite sn_entry_obj in *. rewrite (build_obj_into_spec _ _ OK). unfold epl. rewrite EI. reflexivity.
+Qed.
+
+Theorem strip_nulls_w_enc v buf : wfb v = true -> top_ok v -> strip_nulls_w (enc v) buf = Ok (buf ++ enc (strip_nulls_t v)).
+Proof. intros Hw Ht. unfold strip_nulls_w. rewrite (is_jsonb_enc v Hw Ht). apply strip_nulls_b_enc. exact Hw. Qed.
